@@ -109,7 +109,7 @@ class Snap:
         self.keep.append(o)
         self.memo[oid] = len(self.memo)
         if isinstance(o, pd.DataFrame):
-            return ("df", tuple(map(str, o.columns)), tuple(map(str, o.index)), tuple(self.walk(o[c].tolist(), depth + 1) for c in o.columns), tuple(str(d) for d in o.dtypes))
+            return ("df", tuple(map(str, o.columns)), tuple(map(str, o.index)), tuple(self.walk(o.iloc[:, i].tolist(), depth + 1) for i in range(o.shape[1])), tuple(str(d) for d in o.dtypes))
         if isinstance(o, pd.Series):
             return ("series", tuple(map(str, o.index)), self.walk(o.tolist(), depth + 1))
         if isinstance(o, dict):
